@@ -4,12 +4,12 @@
 EXTENDS EchHello, Json
 
 AllOuters == {"O1", "O2", "O3", "O4"}
-AllInners == {"I1", "I2", "I3", "I4", "I5"}
+AllInners == {"I1", "I2", "I3", "I4", "I5", "I6"}
 O12 == {"O1", "O2"}
 I12 == {"I1", "I3"}
 KL_one   == { <<"K1">> }
 KL_c04   == { <<"K1">>, <<"K4", "K1">>, <<>>, <<"KX", "K4", "K1">> }
-KL_c02   == { <<"K1">>, <<"K2", "K1">>, <<"K1b">>, <<"K4">>, <<"KX", "K1", "K4">> }
+KL_c02   == { <<"K1">>, <<"K2", "K1">>, <<"K1b">>, <<"K4">>, <<"KX", "K1", "K4">>, <<"K4", "K1">> }
 \* every list of 1..N distinct keys from the pool
 Pool == {"K1", "K2", "K3", "K4", "K5", "K6", "KX"}
 RECURSIVE Perms(_, _)
